@@ -1,0 +1,30 @@
+//go:build verif
+
+package gov
+
+import (
+	"github.com/rigochain/rigo-go/ctrlers/gov/proposal"
+	"github.com/rigochain/rigo-go/types/xerrors"
+)
+
+// VerifFrozenProposals returns all frozen proposals of the last committed version (read-only).
+func (ctrler *GovCtrler) VerifFrozenProposals() ([]*proposal.GovProposal, error) {
+	ctrler.mtx.RLock()
+	defer ctrler.mtx.RUnlock()
+	var ret []*proposal.GovProposal
+	if xerr := ctrler.frozenLedger.IterateReadAllItems(func(p *proposal.GovProposal) xerrors.XError {
+		ret = append(ret, p)
+		return nil
+	}); xerr != nil {
+		return nil, xerr
+	}
+	return ret, nil
+}
+
+// VerifCloseRest closes the DB handle that Close() leaves open.
+func (ctrler *GovCtrler) VerifCloseRest() {
+	if ctrler.frozenLedger != nil {
+		_ = ctrler.frozenLedger.Close()
+		ctrler.frozenLedger = nil
+	}
+}
